@@ -73,6 +73,8 @@ def j_rules(P, E):
     # ---- J2: who may write the map
     n = 0
     for b in P.bodies.values():
+        if b.id in P.absorbed:
+            continue       # private helpers are judged where they are inlined
         for c in b.calls:
             if c.path.startswith(HM) and c.args and _hits(P, b, b.operand_prov(c.args[0]), "observers"):
                 op = c.path[len(HM):]
@@ -83,7 +85,7 @@ def j_rules(P, E):
                 r.instance(("J2", b.nid, op), True, None)
                 if op in MAPOPS_MUT:
                     ok = (op == "insert" and b.id == src.id) or (op == "remove" and b.id == teardown.id) or \
-                         (op == "clear" and b.nid in (SUBJ + "::error", SUBJ + "::complete"))
+                         (op in ("clear", "drain") and b.nid in (SUBJ + "::error", SUBJ + "::complete"))
                     if not ok:
                         r.violate(("J2", b.nid, "unexpected map mutation " + op),
                                   "the observer map is mutated by %s in %s (allowed: insert on subscribe, remove in teardown, "
@@ -126,7 +128,7 @@ def j_rules(P, E):
                     r.violate(("J3", mb.nid, "delivery over the live map"), "delivery iterates the map itself", body=mb, line=c.line)
         # J4: terminals clear before the first delivery
         if name in ("error", "complete"):
-            clears = [c.bb for c in mb.calls if c.path == HM + "clear" and _hits(P, mb, mb.operand_prov(c.args[0]), "observers")]
+            clears = [c.bb for c in mb.calls if c.path in (HM + "clear", HM + "drain") and _hits(P, mb, mb.operand_prov(c.args[0]), "observers")]
             r.instance(("J4", mb.nid), True, "clear blocks %s" % clears)
             if not clears:
                 r.violate(("J4", mb.nid, "map not cleared"), "Subject::%s keeps its observers after the terminal" % name, body=mb)
@@ -135,18 +137,20 @@ def j_rules(P, E):
                     r.violate(("J4", mb.nid, "delivery before clear"),
                               "the terminal is delivered before the map is cleared: a re-entrant next()/subscribe sees the dead observers", body=mb, line=c.line)
             # snapshot taken before the clear
-            snaps = [c.bb for c in mb.calls if c.path == SUBJ + "::fetch_observers"]
+            # the snapshot = the acquisitions of the map that precede the clear (helpers are inlined)
+            snaps = [bb for bb in oa if bb not in clears and not any(held.get(cb, set()) & {bb} for cb in clears)]
             for cb in clears:
                 if snaps and Effects.path_avoiding(mb, [cb], snaps) is not None:
                     r.violate(("J4", mb.nid, "clear before snapshot"), "the map is cleared before the snapshot is taken: nobody receives the terminal", body=mb)
-    fo = P.body(SUBJ + "::fetch_observers")
-    if fo is None:
-        r.error("anchor missing: Subject::fetch_observers")
-    else:
-        oa, _, _ = _acq_field(P, fo, "observers")
-        r.instance(("J3", fo.nid), True, "snapshot acquisitions %s" % {k: v["mode"] for k, v in oa.items()})
+    # every Subject emission method locks the map to take its snapshot
+    for name in ("next", "error", "complete"):
+        mb = P.body(SUBJ + "::" + name)
+        if mb is None:
+            continue
+        oa, _, _ = _acq_field(P, mb, "observers")
+        r.instance(("J3", mb.nid, "snapshot lock"), True, "map acquisitions %s" % {k: v["mode"] for k, v in oa.items()})
         if not oa:
-            r.violate(("J3", fo.nid, "snapshot without lock"), "fetch_observers does not lock the map", body=fo)
+            r.violate(("J3", mb.nid, "snapshot without lock"), "Subject::%s reads the observer map without locking it" % name, body=mb)
 
     # ---- J5: teardown installed before insertion
     sou = [c.bb for c in src.calls if atom(c) == "set_on_unsubscribe"]
@@ -383,8 +387,14 @@ def d_rules(P, E, H):
     if zp is None:
         r.error("anchor missing: Zip::execute")
     else:
-        gets = [b for b in P.descendants(zp) if any(c.path == "std::collections::VecDeque::pop_front" for c in b.calls)
-                and b.guards()[0]]
+        def _pops(ob):
+            if any(c.path == "std::collections::VecDeque::pop_front" for c in ob.calls):
+                return True
+            return any(_pops(P.orig.get(ch.id, ch)) for ch in P.children(ob))
+        gets = [b for b in P.descendants(zp)
+                if P.orig.get(b.id, b).guards()[0] and _pops(P.orig.get(b.id, b))
+                and not any(P.orig.get(ch.id, ch).guards()[0] and _pops(P.orig.get(ch.id, ch)) for ch in P.children(b))]
+        gets = [b for b in gets if not any(atom(c) in ("new_observer",) for c in b.calls)]
         if not gets:
             r.error("anchor missing: zip get closure")
         for b in gets:
@@ -401,29 +411,48 @@ def d_rules(P, E, H):
         if rb is None:
             r.error("anchor missing: %s" % root)
             continue
-        takers = [b for b in P.descendants(rb) if _acq_field_local(P, b, "value")
-                  and any(atom(c) == "sink_next" for c in b.calls)]
+        # the latest-value cell = the lock cell whose content reaches sink_next in an emitting closure
+        takers = []
+        for b in P.descendants(rb):
+            if b.id in P.absorbed:
+                continue
+            acqs, _, _ = b.guards()
+            if not acqs:
+                continue
+            for c in b.calls:
+                if atom(c) != "sink_next" or len(c.args) < 2:
+                    continue
+                src_cells = set()
+                for t in b.operand_prov(c.args[1]):
+                    for bb_, a in acqs.items():
+                        if any(t[:2] == ct[:2] and t[2][:len(ct[2])] == ct[2] for ct in a["cell"]):
+                            src_cells.add(frozenset(a["cell"]))
+                if src_cells:
+                    takers.append((b, sorted(src_cells, key=str)[0]))
         if not takers:
-            r.error("anchor missing: emitting closure of %s" % root)
-        for b in takers:
-            designated.append((b, "value", what))
-            # the slot is emptied under that guard
+            r.error("anchor missing: closure of %s that emits the stored latest value" % root)
+        for (b, cell) in takers:
+            cname = "+".join(sorted(b.term_name(t) for t in cell))
+            designated.append((b, cell, what))
             emptied = False
             for i in sorted(b.reach):
                 for s_ in b.blocks[i]["stmts"]:
-                    if s_["k"] == "assign" and len(s_["lhs"]) > 1 and "*" in s_["lhs"] and any("value" in b.term_name(t) for t in b.place_prov(s_["lhs"])):
+                    if s_["k"] == "assign" and len(s_["lhs"]) > 1 and "*" in s_["lhs"] and (b.place_prov(s_["lhs"]) & set(cell)):
                         for t in (b.operand_prov(s_["rv"]["op"]) if s_["rv"]["k"] == "use" else []):
                             if t[0] == "agg" and b.blocks[t[1][0]]["stmts"][t[1][1]]["rv"].get("variant") == "None":
                                 emptied = True
             for c in b.calls:
-                if c.path == "std::option::Option::take" and any("value" in b.term_name(t) for t in b.operand_prov(c.args[0])):
+                if c.path in ("std::option::Option::take", "std::mem::take") and (b.operand_prov(c.args[0]) & set(cell)):
                     emptied = True
-            r.instance(("D1", b.nid, what + " emptied"), True, "emptied=%s" % emptied)
+            r.instance(("D1", b.nid, what + " emptied"), True, "cell %s emptied=%s" % (cname, emptied))
             if not emptied:
                 r.violate(("D1", b.nid, what + " not cleared"), "the stored item is emitted but never cleared: it is delivered again on the next tick", body=b)
     for (b, cellname, what) in designated:
         acqs, held, _ = b.guards()
-        sel = {bb: a for bb, a in acqs.items() if cellname is None or any(cellname in b.term_name(t) for t in a["cell"])}
+        if isinstance(cellname, frozenset):
+            sel = {bb: a for bb, a in acqs.items() if a["cell"] & cellname}
+        else:
+            sel = {bb: a for bb, a in acqs.items() if cellname is None or any(cellname in b.term_name(t) for t in a["cell"])}
         r.instance(("D1", b.nid, what), True, "acquisitions %s" % {k: v["mode"] for k, v in sel.items()})
         if len(sel) != 1:
             r.violate(("D1", b.nid, "%s: %d acquisitions" % (what, len(sel))),
@@ -491,6 +520,8 @@ def a19b(P, E):
     arb_cells = {}
     for name, slot in (("error", "fn_error"), ("complete", "fn_complete")):
         b = P.body(OBSERVER + "::" + name)
+        if b is not None:
+            b = P.orig.get(b.id, b)       # the arbiter is looked for as a call: un-inlined view
         if b is None:
             r.error("anchor missing: Observer::%s" % name)
             continue
